@@ -31,7 +31,45 @@ let ev_of (s : string) : ev =
 
 let join l = if l = [] then "-" else String.concat ";" l
 
+(* ---- op hdr <record: deep|shallow|shared> <merged: deep|shallow|shared> <step>...
+        step = f:<now ms>:<hex> (one read at absolute time now) | r:<k>:<reply id>:<platform serial>:<body length>
+        (the writer answers delivered message k).  Per step: n=<number of delivered messages>
+        x=<k=view;...> for every message that is new or reads differently than after the previous step;
+        view = id,serial,sum,no,phone|ver.frag.enc.blen.pv.rid.ps  (Model/HdrMem.v) ---- *)
+let share_of = function
+  | "deep" -> HdrMem.Deep | "shallow" -> HdrMem.Shallow | "shared" -> HdrMem.Shared | _ -> failwith "share"
+
+let show_view (c, p) : string =
+  Printf.sprintf "%s,%s,%s,%s,%s|%s.%s.%s.%s.%s.%s.%s" (dec_of_n c.HdrMem.hc_id) (dec_of_n c.HdrMem.hc_serial)
+    (dec_of_n c.HdrMem.hc_sum) (dec_of_n c.HdrMem.hc_no) (string_of_chars c.HdrMem.hc_phone)
+    (dec_of_n p.HdrMem.pc_ver) (dec_of_n p.HdrMem.pc_frag) (dec_of_n p.HdrMem.pc_enc) (dec_of_n p.HdrMem.pc_blen)
+    (dec_of_n c.HdrMem.hc_pv) (dec_of_n c.HdrMem.hc_rid) (dec_of_n c.HdrMem.hc_ps)
+
+let hstep_of (s : string) : HdrMem.hstep =
+  match String.split_on_char ':' s with
+  | ["f"; now; hex] -> HdrMem.HFeed (n_of_int (int_of_string now), bytes_of_hex hex)
+  | ["r"; k; rid; ps; blen] ->
+    HdrMem.HReply (nat_of_int (int_of_string k), n_of_int (int_of_string rid), n_of_int (int_of_string ps), n_of_int (int_of_string blen))
+  | _ -> failwith "hstep"
+
+let hdr_op args = match args with
+  | r :: m :: steps ->
+    let v = { HdrMem.hv_rec = share_of r; HdrMem.hv_merge = share_of m } in
+    let tr = HdrMem.htrace v HdrMem.hst0 (Stdlib.List.map hstep_of steps) in
+    if tr = [] then "none" else begin
+      let prev = ref [||] in
+      let lines = Stdlib.List.map (fun (st : HdrMem.hst) ->
+        let cur = Array.of_list (Stdlib.List.map (fun hp -> show_view (HdrMem.hread st.HdrMem.hs_heap hp)) st.HdrMem.hs_del) in
+        let x = ref [] in
+        Array.iteri (fun k s -> if k >= Array.length !prev || !prev.(k) <> s then x := Printf.sprintf "%d=%s" k s :: !x) cur;
+        prev := cur;
+        Printf.sprintf "n=%d x=%s" (Array.length cur) (join (Stdlib.List.rev !x))) tr in
+      String.concat " | " lines
+    end
+  | _ -> "bad-args"
+
 let init () =
+  register "hdr" hdr_op;
   register "mem" (fun args -> match args with
     | v :: b :: evs ->
       let v = variant_of v and bufsz = nat_of_int (int_of_string b) in
